@@ -102,7 +102,8 @@ fn check_files(schema: &'static Schema, files: &Value, root: &Value) -> Value {
 pub fn run(args: &[String]) -> i32 {
     let mut schemas: HashMap<String, (&'static Schema, Value)> = HashMap::new();
     for s in read_ndjson(&args[0]) {
-        match build_schema(&s["model"]) {
+        // the SDL that is parsed may spell the same schema with `extend` items (renderModel); `model` is its merged form
+        match build_schema(if s["renderModel"].is_object() { &s["renderModel"] } else { &s["model"] }) {
             Ok(sc) => {
                 schemas.insert(s["name"].as_str().unwrap().to_string(), (sc, s["model"].clone()));
             }
